@@ -111,6 +111,8 @@ mod sampler_stats;
 mod stepsize;
 mod storage;
 mod transform;
+#[cfg(nuts_rs_verif)]
+pub mod verif;
 
 pub use nuts_derive::Storable;
 pub use nuts_storable::{DateTimeUnit, HasDims, ItemType, Storable, Value};
